@@ -204,6 +204,19 @@ pub mod dev {
         PERIODIC_FLUSH_PAUSED.load(Ordering::SeqCst)
     }
 
+    /// H16: while set, a shard that reaches the buffer-full threshold does not wake its worker, so
+    /// that a queue longer than one journal transaction can be built up and flushed by one pass the
+    /// harness asks for.
+    static FULL_TRIGGER_PAUSED: AtomicBool = AtomicBool::new(false);
+
+    pub fn set_full_trigger_paused(on: bool) {
+        FULL_TRIGGER_PAUSED.store(on, Ordering::SeqCst);
+    }
+
+    pub(crate) fn full_trigger_paused() -> bool {
+        FULL_TRIGGER_PAUSED.load(Ordering::SeqCst)
+    }
+
     fn observer() -> Option<Arc<dyn Observer>> {
         OBSERVER.read().unwrap().clone()
     }
